@@ -4,7 +4,11 @@ Workload: a generated file tree (<= 10 files) over the documented places
 (pyscript/*.py, scripts/**, apps/<app>.py, apps/<app>/__init__.py + siblings, modules/<m>.py,
 modules/<m>/__init__.py + siblings; module and package form of one name may coexist) with acyclic
 import edges (``import m``, ``from m import val``, ``from m import *``, ``from . import sib``,
-``from .sib import val``, ``from .sib import *``), apps configured or not.  Every generated file,
+``from .sib import val``, ``from .sib import *``; a submodule of a module package by its dotted name,
+``import m.sib`` / ``from m.sib import val`` / ``from m.sib import *``, with or without an import of the package
+``m`` itself; imports that stand inside a function and are executed at run time - after each load the driver makes
+one importer at a time execute them - which may close an import cycle between modules), apps configured or not.
+Every generated file,
 when executed, announces ``('load', uid, generation, instance, pyscript.get_global_ctx())``, owns a
 counter, an ``@event_trigger('probe')`` function that reports (uid, generation, instance, counter)
 and bumps the counter, and optionally starts a long task at load time (start marker, task.sleep(T),
@@ -50,7 +54,9 @@ LEVEL = "exploration"
 RULE = (
     "seeded generation of (file tree of 2-10 files over top-level / scripts/** / apps file+package(+siblings) / "
     "modules file+package(+siblings) with acyclic absolute, from-, star- and relative import edges incl. imports "
-    "of absent modules, app configuration present/absent (flat or with nested list/dict values), optional "
+    "of absent modules, imports of a package submodule by its dotted name (m.sub) with or without an import of the "
+    "package, and run-time imports executed inside a function after the load, which may close import cycles between "
+    "modules; app configuration present/absent (flat or with nested list/dict values), optional "
     "load-time long task per file, app main files that write to their pyscript.app_config [setdefault / assign / "
     "pop / update / clear / nested append] at load time or from their trigger) x (<= 12 ops in "
     "rounds of 1-3 edits [modify(+re-wire imports) / touch, each with the mtime moving forwards, backwards or back "
@@ -62,7 +68,17 @@ RULE = (
 ASSUMPTIONS = [
     "sequences only: a reload is awaited (blocking service call) before the next op; overlapping reloads are not "
     "generated (the property speaks of sequences)",
-    "import cycles between pyscript modules are not generated (a module is registered only after it has run)",
+    "import cycles between pyscript modules through load-time imports are not generated (a module is registered "
+    "only after it has run); cycles closed by an import executed at run time inside a function are (not in steered "
+    "runs)",
+    "a run-time import (import statement inside a function) is exercised only while every module it names is "
+    "loaded: it then adds a dependency of the importing context on that module, exactly like a load-time import; a "
+    "run-time import that would have to load the module is not exercised; the importers are driven one at a time",
+    "import m.sub loads modules/m/sub.py as modules.m.sub; whether it also executes modules/m/__init__.py first (as "
+    "Python does) is not documented: that execution is allowed, not required; an import of any file of a package "
+    "counts as an import of that package (docs: 'any changes to a module's files will cause all of the module files "
+    "to be unloaded, and any scripts or apps that import that module will be reloaded'); a file of a package can do "
+    "relative imports however it was imported",
     "a file may fail while loading (raise at top level, or an unguarded import of an absent or failing module): "
     "whether such a file is registered, and whether it is tried again while it still fails, is don't-care (what a "
     "file that fails to load leaves behind is not documented); once the cause is repaired a reload must execute it, "
@@ -111,7 +127,9 @@ REACH_PROBES = [
     "stall_during_reload", "content_only_change", "file_failed_to_load", "importer_failed_with_its_import",
     "failed_file_loaded_after_repair", "mtime_moved_back", "mtime_moved_back_imported_module", "mtime_restored",
     "app_saw_its_config", "config_writing_app_left_alone", "config_writing_app_left_alone_nested",
-    "app_wrote_config_at_runtime",
+    "app_wrote_config_at_runtime", "dotted_submodule_import", "package_changed_reached_by_dotted_import_only",
+    "late_import_done", "import_cycle", "changed_module_reached_over_cycle",
+    "dotted_submodule_with_relative_import",
 ]
 SHRINK_LISTS = [["ops"], ["spec", "files"], ["spec", "files", "*", "imports"]]
 
@@ -182,6 +200,29 @@ def hash_paths(target: str, on: bool) -> tuple[str, str]:
     return (plain, commented) if on else (commented, plain)
 
 
+def is_late(imp: list) -> bool:
+    """[scope, name, form, "late"]: the import statement stands in a function and is executed at run time."""
+    return len(imp) > 3 and imp[3] == "late"
+
+
+def top_imports(f: dict) -> list:
+    return [i for i in f["imports"] if not is_late(i)]
+
+
+def late_imports(f: dict) -> list:
+    return [i for i in f["imports"] if is_late(i)]
+
+
+def _import_stmt(imp: list) -> str:
+    scope, name, form = imp[0], imp[1], imp[2]
+    dots = "." if scope == "rel" else ""
+    if form == "import":
+        return f"from . import {name}" if scope == "rel" else f"import {name}"
+    if form == "from":
+        return f"from {dots}{name} import val as v_{name.replace('.', '_')}"
+    return f"from {dots}{name} import *"
+
+
 # ------------------------------------------------------------------ generated sources
 def file_src(f: dict) -> str:
     u, g = f["uid"], f["gen"]
@@ -199,14 +240,8 @@ def file_src(f: dict) -> str:
                   f"sim.mark('cfgseen', {u!r}, {g}, inst_{u}, ac_{u})"]
         if f.get("cfgmut_at", "load") == "load":
             lines += _mut_lines(cm, u, g, "")
-    for scope, name, form in f["imports"]:
-        dots = "." if scope == "rel" else ""
-        if form == "import":
-            stmt = f"from . import {name}" if scope == "rel" else f"import {name}"
-        elif form == "from":
-            stmt = f"from {dots}{name} import val as v_{name}"
-        else:
-            stmt = f"from {dots}{name} import *"
+    for imp in top_imports(f):
+        name, stmt = imp[1], _import_stmt(imp)
         if f.get("strict"):
             lines.append(stmt)  # unguarded: a failing import makes this file fail to load as well
         else:
@@ -222,6 +257,14 @@ def file_src(f: dict) -> str:
     ]
     if cm and f.get("cfgmut_at", "load") != "load":
         lines += _mut_lines(cm, u, g, "    ")
+    late = late_imports(f)
+    if late:
+        # imports that are executed at run time, inside a function (the driver fires 'late_<uid>' when it wants them)
+        lines += [f"@event_trigger('late_{u}')", f"def late_{u}(**kw):"]
+        for imp in late:
+            lines += ["    try:", f"        {_import_stmt(imp)}",
+                      f"        sim.mark('lateok', {u!r}, {g}, inst_{u}, {imp[1]!r})",
+                      "    except Exception:", f"        sim.mark('latefail', {u!r}, {g}, inst_{u}, {imp[1]!r})"]
     if f.get("task"):
         lines += [
             f"def bg_{u}():",
@@ -422,7 +465,7 @@ def discover(disk: Disk) -> dict:
 
 def want_name(info: dict, imp: list) -> str | None:
     """Context name an import statement of the file described by ``info`` refers to."""
-    scope, name, _form = imp
+    scope, name = imp[0], imp[1]
     if scope == "abs":
         return f"modules.{name}"
     if info["kind"] in PKG_KINDS and info["root"]:
@@ -526,8 +569,11 @@ def close_changes(base: dict, loaded: dict, found: dict, use_wanted: bool, soft:
     return changed
 
 
-def simulate_exec(loaded: dict, found: dict, disk: Disk, changed: dict) -> tuple[dict, list, set]:
+def simulate_exec(loaded: dict, found: dict, disk: Disk, changed: dict, upper: bool = False) -> tuple[dict, list, set]:
     """Discard ``changed``, execute the changed auto-loaded files that exist, follow their imports.
+
+    ``upper``: the upper bound of what may be executed - an import of a submodule by its dotted name (``import m.sub``)
+    may also execute the ``__init__.py`` of the package ``m`` first, as Python does (not documented either way).
 
     A file that raises while loading ("boom", or an unguarded import of something that is absent or itself fails to
     load) is executed but not loaded: it is in ``executed`` and in ``failed`` and not in the resulting table."""
@@ -544,7 +590,7 @@ def simulate_exec(loaded: dict, found: dict, disk: Disk, changed: dict) -> tuple
         f = disk.files[d["path"]]
         imports, wanted = [], []
         ok = not f.get("boom")
-        for imp in (f["imports"] if ok else []):
+        for imp in (top_imports(f) if ok else []):
             tgt = want_name(d, imp)
             if tgt is None:
                 if f.get("strict"):
@@ -552,6 +598,10 @@ def simulate_exec(loaded: dict, found: dict, disk: Disk, changed: dict) -> tuple
                     break
                 continue
             wanted.append(tgt)
+            if upper and imp[0] == "abs" and "." in imp[1]:
+                pkg = root_of(tgt)
+                if pkg not in now and pkg in found and found[pkg]["kind"] == "module_pkg_init":
+                    run(pkg)
             if tgt in now:
                 imports.append(tgt)
             elif tgt in found and not found[tgt]["autoload"] and run(tgt):
@@ -566,7 +616,7 @@ def simulate_exec(loaded: dict, found: dict, disk: Disk, changed: dict) -> tuple
             return False
         now[ctx] = {"uid": f["uid"], "gen": f["gen"], "mtime": f["mtime"], "cfg": copy.deepcopy(d["cfg"]),
                     "path": d["path"], "kind": d["kind"], "imports": sorted(set(imports)),
-                    "wanted": sorted(set(wanted))}
+                    "wanted": sorted(set(wanted)), "late": [list(i) for i in late_imports(f)]}
         executed.append(ctx)
         return True
 
@@ -602,7 +652,7 @@ def expectation(loaded: dict, disk: Disk, mode: str | None) -> dict:
     may_base.update(must_base)
     may_changed = close_changes(may_base, loaded, found, use_wanted=True)
     must_after, must_exec_all, must_failed = simulate_exec(loaded, found, disk, must_changed)
-    may_after, may_exec, may_failed = simulate_exec(loaded, found, disk, may_changed)
+    may_after, may_exec, may_failed = simulate_exec(loaded, found, disk, may_changed, upper=True)
     # a file that fails to load need not be tried (what a failing file leaves behind, and whether it is tried again
     # while it still fails, is not stated); one that loads must be executed
     # (the lower bound also needs the execution to happen, and succeed, under the upper-bound change set: whether an
@@ -619,8 +669,13 @@ def expectation(loaded: dict, disk: Disk, mode: str | None) -> dict:
 
 
 # ------------------------------------------------------------------ generation
-def _gen_imports(rng: random.Random, info: dict, mods_here: list[str], sibs_here: list[str], rich: bool) -> list:
-    """Import list of a file; acyclic by construction (module i imports modules j>i; sibling k imports siblings l>k)."""
+def _gen_imports(rng: random.Random, info: dict, mods_here: list[str], sibs_here: list[str], rich: bool,
+                 tree_sibs: dict | None = None) -> list:
+    """Import list of a file; acyclic by construction (module i imports modules j>i; sibling k imports siblings l>k).
+
+    ``tree_sibs`` (root context name -> names of the sibling files of that package in the tree): when given, a file
+    may also import a submodule of a module package by its dotted name (``import m.sub`` / ``from m.sub import ..``),
+    with or without an import of the package ``m`` itself."""
     out = []
     kind = info["kind"]
     if kind.startswith("module_"):
@@ -638,6 +693,14 @@ def _gen_imports(rng: random.Random, info: dict, mods_here: list[str], sibs_here
         if any(i[0] == "abs" and i[1] == name for i in out):
             continue
         out.append(["abs", name, rng.choice(["import", "import", "from", "star"])])
+    if tree_sibs is not None and abs_pool and rng.random() < (0.3 if rich else 0.2):
+        pkgs = [m for m in abs_pool if tree_sibs.get(f"modules.{m}")]
+        if pkgs and rng.random() < 0.9:
+            mod = rng.choice(pkgs)
+            sub = rng.choice(sorted(tree_sibs[f"modules.{mod}"]))
+        else:
+            mod, sub = rng.choice(abs_pool), rng.choice(SIBS)  # (mostly) a submodule that does not exist
+        out.append(["abs", f"{mod}.{sub}", rng.choice(["import", "from", "from", "star"])])
     if kind in PKG_KINDS:
         if kind.endswith("_init"):
             rel_pool = list(SIBS)
@@ -651,6 +714,32 @@ def _gen_imports(rng: random.Random, info: dict, mods_here: list[str], sibs_here
             if rng.random() < (p_each if here else 0.08):
                 out.append(["rel", name, rng.choice(["import", "from", "star"])])
     rng.shuffle(out)
+    if rng.random() < (0.25 if kind.startswith("module_") else 0.08):
+        # an import executed at run time, from inside a function (the usual way to break an import cycle: a module
+        # may import, late, a module that imports it at load time)
+        mine = info["name"] if kind.startswith("module_") else None
+        pool = [m for m in MODS if m != mine]
+        back = [m for m in pool if mine is not None and MODS.index(m) < MODS.index(mine)]
+        here = [m for m in pool if m in mods_here]
+        for _ in range(rng.choice([1, 1, 2])):
+            name = rng.choice(back if back and rng.random() < 0.6 else here if here and rng.random() < 0.9 else pool)
+            if tree_sibs and tree_sibs.get(f"modules.{name}") and rng.random() < 0.2:
+                name = f"{name}.{rng.choice(sorted(tree_sibs[f'modules.{name}']))}"
+            if not any(i[0] == "abs" and i[1] == name for i in out):
+                out.append(["abs", name, rng.choice(["import", "from"]), "late"])
+    return out
+
+
+def _steer_imports(imports: list, info: dict) -> list:
+    """Steered runs stay away from relative imports in sibling files and from import cycles."""
+    out = []
+    for imp in imports:
+        if imp[0] == "rel" and info["kind"].endswith("_sibling"):
+            continue
+        if is_late(imp) and info["kind"].startswith("module_") and \
+                MODS.index(imp[1].split(".")[0]) <= MODS.index(info["name"]):
+            continue
+        out.append(imp)
     return out
 
 
@@ -728,9 +817,9 @@ def gen(rng: random.Random, tier: str) -> dict:
     files = []
     for i, path in enumerate(paths):
         info = classify(path)
-        imports = _gen_imports(rng, info, mods_here, sibs_here.get(info["root"], []), rich)
+        imports = _gen_imports(rng, info, mods_here, sibs_here.get(info["root"], []), rich, sibs_here)
         if steer:
-            imports = [i2 for i2 in imports if not (i2[0] == "rel" and info["kind"].endswith("_sibling"))]
+            imports = _steer_imports(imports, info)
         files.append({"uid": f"F{i}", "path": path, "imports": imports, "task": rng.choice(TASK_T),
                       "boom": rng.random() < 0.05, "strict": bool(imports) and rng.random() < 0.3,
                       **_gen_cfgmut(rng, info, steer)})
@@ -831,9 +920,9 @@ def _gen_edit(rng: random.Random, disk: Disk, next_uid: int, steer: bool) -> dic
         if rng.random() < 0.3:
             mods_here, sibs_here = _tree_names(paths)
             info = classify(path)
-            imports = _gen_imports(rng, info, mods_here, sibs_here.get(info["root"], []), True)
+            imports = _gen_imports(rng, info, mods_here, sibs_here.get(info["root"], []), True, sibs_here)
             if steer:
-                imports = [i for i in imports if not (i[0] == "rel" and info["kind"].endswith("_sibling"))]
+                imports = _steer_imports(imports, info)
             op["imports"] = imports
         return op
     if roll < 0.40 and paths:
@@ -852,9 +941,9 @@ def _gen_edit(rng: random.Random, disk: Disk, next_uid: int, steer: bool) -> dic
         path = rng.choice(near if near and rng.random() < 0.6 else free)
         info = classify(path)
         mods_here, sibs_here = _tree_names(paths + [path])
-        imports = _gen_imports(rng, info, mods_here, sibs_here.get(info["root"], []), True)
+        imports = _gen_imports(rng, info, mods_here, sibs_here.get(info["root"], []), True, sibs_here)
         if steer:
-            imports = [i for i in imports if not (i[0] == "rel" and info["kind"].endswith("_sibling"))]
+            imports = _steer_imports(imports, info)
         return {"kind": "create", "path": path,
                 "file": {"uid": f"F{next_uid}", "imports": imports, "task": rng.choice(TASK_T),
                          "boom": rng.random() < 0.05, "strict": bool(imports) and rng.random() < 0.3,
@@ -1111,14 +1200,15 @@ class Judge:
             reach_cache: dict[str, set] = {}
 
             def reach(ctx):
-                if ctx in reach_cache:
-                    return reach_cache[ctx]
-                reach_cache[ctx] = set()
-                out = {ctx}
-                for t in loaded.get(ctx, {}).get("imports", []):
-                    out |= reach(t)
-                reach_cache[ctx] = out
-                return out
+                if ctx not in reach_cache:
+                    seen, work = {ctx}, [ctx]
+                    while work:
+                        for t in loaded.get(work.pop(), {}).get("imports", []):
+                            if t not in seen:
+                                seen.add(t)
+                                work.append(t)
+                    reach_cache[ctx] = seen
+                return reach_cache[ctx]
 
             for ctx, ent in loaded.items():
                 for mod in base_mods:
@@ -1130,6 +1220,21 @@ class Judge:
                     importers = [c for c, e in loaded.items() if mod in e["imports"] and root_of(c) != root_of(mod)]
                     if importers and all(loaded[c]["kind"] == "app_pkg_sibling" for c in importers):
                         w.probe("module_only_imported_by_app_sibling")
+            # some context reaches a changed module, and what it imports contains modules that import each other
+            if any(mod in reach(ctx) and ctx != mod and has_cycle(loaded, ctx) for ctx in sorted(loaded)
+                   for mod in sorted(base_mods)):
+                w.probe("changed_module_reached_over_cycle")
+            # a file of a module package changed, and some context outside the package reaches that package only
+            # through imports of its submodules by their dotted names (no import of the package itself anywhere in
+            # what it imports, directly or indirectly)
+            for pkg in sorted({root_of(m) for m in base_mods if m.startswith("modules.")}):
+                for ctx in sorted(loaded):
+                    if root_of(ctx) == pkg:
+                        continue
+                    seen = reach(ctx)
+                    if pkg not in seen and any(root_of(t) == pkg for t in seen):
+                        w.probe("package_changed_reached_by_dotted_import_only")
+                        break
         if any(t not in exp["found"] and t not in loaded for ent in loaded.values() for t in ent["wanted"]):
             w.probe("import_of_absent_module")
 
@@ -1163,12 +1268,39 @@ class Judge:
         if orphans:
             w.probe("orphan_module", len(orphans))
 
+        taint = dotted_rel_taint(found, disk)
+        if taint:
+            w.probe("dotted_submodule_with_relative_import")
+
+        def tagged(sig, ctx):
+            if ctx in taint:
+                sig["cause"] = "relative_import_in_dotted_submodule"
+            return sig
+
         def reason_sig(ctx, table):
             r = table.get(ctx)
             if r is None:
-                return {"mode": label, "op": "imported", "change": "imported"}
-            return {"mode": label, "op": r["op"], "place": r["place"], "via": r["via"],
-                    "change": CHANGE_GROUP.get(r["op"], r["op"])}
+                return tagged({"mode": label, "op": "imported", "change": "imported"}, ctx)
+            sig = {"mode": label, "op": r["op"], "place": r["place"], "via": r["via"],
+                   "change": CHANGE_GROUP.get(r["op"], r["op"])}
+            if ctx in taint:
+                sig["cause"] = "relative_import_in_dotted_submodule"
+            elif ctx in before and "import" in r["via"].split("+") and label in ("default", "name"):
+                # what the context itself imports, directly or indirectly, import by import
+                seen, work = {ctx}, [ctx]
+                while work:
+                    for t in before.get(work.pop(), {}).get("imports", []):
+                        if t not in seen:
+                            seen.add(t)
+                            work.append(t)
+                base_roots = {root_of(b) for b in exp["must_base"]} - {None}
+                if has_cycle(before, ctx):
+                    sig["cause"] = "import_cycle"  # ... contains modules that import each other (run-time imports)
+                elif not any(t in exp["must_base"] or root_of(t) in base_roots for t in seen):
+                    # ... holds no changed file: it reaches the change only because a package it imports a file of is
+                    # reloaded as a whole on behalf of another file of that package
+                    sig["cause"] = "package_reloaded_for_its_import"
+            return sig
 
         # ---- (b) what was executed
         executed: dict[str, list] = {}
@@ -1183,6 +1315,8 @@ class Judge:
                 continue
             if info["kind"].endswith("_pkg_sibling") and any(i[0] == "rel" for i in disk.files[path]["imports"]):
                 w.probe("sibling_imports_sibling")
+            if any(i[0] == "abs" and "." in i[1] and want_name(info, i) in found for i in disk.files[path]["imports"]):
+                w.probe("dotted_submodule_import")
             if info["hidden"]:
                 self.viol("C10.reexecuted_unexpectedly", {"mode": label, "place": "hidden_" + info["kind"]},
                           f"{label} reload executed commented file {path} as {name}")
@@ -1203,7 +1337,7 @@ class Judge:
             return
         for name in sorted(executed):
             if len(executed[name]) > 1 and name not in failed_any:
-                self.viol("C10.reexecuted_unexpectedly", {"mode": label, "place": "twice"},
+                self.viol("C10.reexecuted_unexpectedly", tagged({"mode": label, "place": "twice"}, name),
                           f"{name} was executed {len(executed[name])} times by one {label} reload")
             if name not in may_exec and classify_ctx_known(name, found, before):
                 kind = (found.get(name) or before.get(name))["kind"]
@@ -1222,7 +1356,7 @@ class Judge:
                 if found.get(name, {}).get("autoload") and not disk.files[found[name]["path"]].get("boom"):
                     w.probe("importer_failed_with_its_import")
             if name in ok_def and not ok_real:
-                self.viol("C10.load_did_not_finish", {"mode": label, "place": found[name]["kind"]},
+                self.viol("C10.load_did_not_finish", tagged({"mode": label, "place": found[name]["kind"]}, name),
                           f"{label} reload executed {name} ({found[name]['path']}) but its top-level code did not run to "
                           f"the end although nothing in it or in what it imports fails; error log: "
                           f"{[r['msg'].strip().splitlines()[-1][:140] for r in w.logs if r['level'] == 'ERROR'][-2:]}")
@@ -1293,7 +1427,7 @@ class Judge:
                 continue  # already reported as not executed
             state = "executed" if ctx in executed else "untouched"
             kind = (found.get(ctx) or before.get(ctx))["kind"]
-            self.viol("C10.context_set", {"kind": "missing", "mode": label, "place": kind, "state": state},
+            self.viol("C10.context_set", tagged({"kind": "missing", "mode": label, "place": kind, "state": state}, ctx),
                       f"after {label} reload context {ctx} is not loaded; expected it to be {state} "
                       f"(changed: {_fmt(exp['must_base'])})")
 
@@ -1324,7 +1458,7 @@ class Judge:
                 if f is None or info is None:
                     continue
                 wanted, imports = [], []
-                for imp in f["imports"]:
+                for imp in top_imports(f):
                     tgt = want_name(info, imp)
                     if tgt is None:
                         continue
@@ -1334,7 +1468,7 @@ class Judge:
                 cfg = copy.deepcopy(d["cfg"]) if d is not None and d["path"] == path else None
                 new_loaded[ctx] = {"uid": uid, "gen": gen, "mtime": f["mtime"], "cfg": cfg, "path": path,
                                    "kind": info["kind"], "imports": sorted(set(imports)),
-                                   "wanted": sorted(set(wanted))}
+                                   "wanted": sorted(set(wanted)), "late": [list(i) for i in late_imports(f)]}
                 old = self.cur_inst.get(ctx)
                 if old is not None and old in self.inst:
                     self.inst[old]["until"] = t_start
@@ -1354,6 +1488,44 @@ class Judge:
         self.loaded = new_loaded
         if mode is None or mode == "*":
             disk.fresh.clear()
+
+    # ---------------------------------------------------------------- imports executed at run time
+    def late_state(self, ctx: str) -> str:
+        """'due': the loaded source of ``ctx`` has run-time imports that are not done yet, all of loaded modules."""
+        ent = self.loaded.get(ctx)
+        late = (ent or {}).get("late") or []
+        if self.diverged or not late or ctx not in self.cur_inst:
+            return "none"
+        tgts = [f"modules.{imp[1]}" for imp in late]
+        if any(t not in self.loaded for t in tgts):
+            return "blocked"  # (the import would have to load the module at run time: not exercised)
+        return "done" if all(t in ent["imports"] for t in tgts) else "due"
+
+    def after_late(self, ctx: str) -> None:
+        w = self.w
+        ent = self.loaded[ctx]
+        inst = self.cur_inst[ctx]
+        marks = self.take_marks()
+        mine = [m for m in marks if m["args"] and m["args"][0] in ("lateok", "latefail") and m["args"][3] == inst]
+        if not mine:
+            return  # its triggers are dead: the probe reports that
+        for m in marks:
+            if m["args"] and m["args"][0] == "load":
+                self.viol("C10.reexecuted_unexpectedly", {"mode": "runtime_import", "place": ent["kind"]},
+                          f"the run-time import in {ctx} of modules that are loaded executed {m['args'][4]}")
+        ok = {m["args"][4] for m in mine if m["args"][0] == "lateok"}
+        for imp in ent["late"]:
+            tgt = f"modules.{imp[1]}"
+            if imp[1] not in ok:
+                self.viol("C10.runtime_import_failed", {"place": ent["kind"]},
+                          f"{ctx}: '{_import_stmt(imp)}' inside a function failed although {tgt} is loaded")
+                continue
+            w.probe("late_import_done")
+            # the importer now depends on that module like on one it imported while loading
+            ent["imports"] = sorted(set(ent["imports"]) | {tgt})
+            ent["wanted"] = sorted(set(ent["wanted"]) | {tgt})
+        if has_cycle(self.loaded, ctx):
+            w.probe("import_cycle")
 
     # ---------------------------------------------------------------- probe event
     def after_probe(self, label: str) -> None:
@@ -1427,6 +1599,72 @@ class Judge:
 
 
 
+def has_cycle(loaded: dict, start: str) -> bool:
+    """Whether the import graph of what ``start`` imports (directly or indirectly) contains a cycle."""
+    state: dict[str, int] = {}
+    stack = [(start, iter(loaded.get(start, {}).get("imports", [])))]
+    state[start] = 1
+    while stack:
+        cur, it = stack[-1]
+        nxt = next(it, None)
+        if nxt is None:
+            state[cur] = 2
+            stack.pop()
+            continue
+        if nxt not in loaded:
+            continue
+        if state.get(nxt) == 1:
+            return True
+        if nxt not in state:
+            state[nxt] = 1
+            stack.append((nxt, iter(loaded[nxt]["imports"])))
+    return False
+
+
+def dotted_rel_taint(found: dict, disk: Disk) -> set:
+    """Contexts whose load depends on a relative import done by a package file that is imported by its dotted name.
+
+    Seeds: a file of a module package that does relative imports of existing files and that some file outside the
+    package imports by its dotted name; plus the package mates it imports, plus everything that imports any of these,
+    plus everything these import in turn (load-time imports of the files on disk).  Only used to name the cause of a
+    violation (signature key 'cause')."""
+    wants: dict[str, set] = {}
+    for ctx in sorted(found):
+        d = found[ctx]
+        wants[ctx] = {want_name(d, i) for i in top_imports(disk.files[d["path"]])} - {None}
+    taint = set()
+    for ctx in sorted(found):
+        d = found[ctx]
+        if d["kind"] != "module_pkg_sibling":
+            continue
+        if not any(root_of(t) == d["root"] and t in found for t in wants[ctx]):
+            continue
+        if any(ctx in wants[o] and root_of(o) != d["root"] for o in found):
+            taint.add(ctx)
+    work = sorted(taint)
+    while work:
+        cur = work.pop()
+        for t in sorted(wants[cur]):
+            if t in found and t not in taint and root_of(t) == root_of(cur):
+                taint.add(t)
+                work.append(t)
+    down = set(taint)       # what these would have imported in turn is not imported either
+    work = sorted(taint)
+    while work:
+        for t in sorted(wants[work.pop()]):
+            if t in found and t not in down:
+                down.add(t)
+                work.append(t)
+    grew = bool(taint)      # and what imports them may fail with them
+    while grew:
+        grew = False
+        for o in sorted(found):
+            if o not in taint and wants[o] & taint:
+                taint.add(o)
+                grew = True
+    return taint | down
+
+
 def cause_class(default: str, sig: dict) -> str:
     """Violations whose cause (per the reference) is the removal of a non-auto-loaded file get their own classes."""
     place, via = sig.get("place", ""), sig.get("via", "")
@@ -1437,6 +1675,10 @@ def cause_class(default: str, sig: dict) -> str:
             return "C10.deleted_pkg_init_siblings_kept"   # a package lost its __init__.py: siblings stay loaded
         if place in ("module_file", "module_pkg_init") and via.startswith("import"):
             return "C10.deleted_module_importers_kept"    # a module was removed: its importers are not reloaded
+    if sig.get("cause") == "import_cycle" and "import" in via.split("+"):
+        return "C10.importer_over_cycle_kept"             # reaches the change over modules that import each other
+    if sig.get("cause") == "package_reloaded_for_its_import":
+        return "C10.importer_of_widened_package_kept"     # imports a file of a package that is reloaded as a whole
     return default
 
 
@@ -1473,6 +1715,17 @@ def run(scn: dict) -> dict:
         await w.settle(0.25)
         judge.after_probe(label)
 
+    async def late_phase():
+        # run-time imports, one importer at a time (sequences only)
+        for ctx in sorted(judge.loaded):
+            if judge.late_state(ctx) != "due":
+                continue
+            await w.settle(0.0)
+            judge.take_marks()
+            w.fire(f"late_{judge.loaded[ctx]['uid']}", {})
+            await w.settle(0.25)
+            judge.after_late(ctx)
+
     async def driver(w: World):
         await w.started()
         judge.last_reload_vt = 0.0
@@ -1481,6 +1734,7 @@ def run(scn: dict) -> dict:
                        f"(no pyscript.reload service); errors: {[r['msg'][:120] for r in w.logs if r['level'] == 'ERROR'][:3]}")
             return
         judge.after_load(None, "startup", w.loop.vt)
+        await late_phase()
         await probe("startup")
         for op in scn["ops"]:
             if op.get("dt", 0.0) > 0:
@@ -1519,6 +1773,7 @@ def run(scn: dict) -> dict:
                 await w.settle(0.0)
                 judge.after_load(mode, label, t0)
                 judge.reload_times.append({"t0": t0, "n_exec": judge.n_exec - n_before})
+                await late_phase()
                 await probe(label)
             else:
                 restores = (op.get("mt") == "restore" and kind in ("touch", "modify") and not op.get("keep_mtime")
